@@ -46,7 +46,7 @@ def rich_words(brackets=True, nonascii=True, astral=True, boundary=True):
 def tree_model(draw, min_tokens=1, max_tokens=8, disc=0.5, unary=True, words=plain_words,
                pos=st.sampled_from(POSTAGS), labels=st.sampled_from(CATS), edges=st.sampled_from(EDGES),
                root_label="VROOT", shuffle=True, max_arity=4, fields="full", lemmas=None, morphs=None,
-               min_root=1, max_root=None, sid=st.integers(1, 9999), edge_none=False):
+               min_root=1, max_root=None, sid=st.integers(1, 9999), edge_none=False, disc_step=0.5):
     """Bottom-up agglomeration over tokens 1..n.  disc = probability that a grouping step may take a
     non-adjacent subset.  fields: 'full' (lemma/morph strings), 'none' (None), 'mixed'."""
     n = draw(st.integers(min_tokens, max_tokens))
@@ -90,7 +90,7 @@ def tree_model(draw, min_tokens=1, max_tokens=8, disc=0.5, unary=True, words=pla
         if forced:
             lo = min(2, hi)
         k = draw(st.integers(lo, hi))
-        if use_disc and k < len(items) and draw(st.booleans()):
+        if use_disc and k < len(items) and (draw(st.booleans()) if disc_step == 0.5 else draw(st.floats(0, 1)) < disc_step):
             idxs = sorted(draw(st.lists(st.integers(0, len(items) - 1), min_size=k, max_size=k, unique=True)))
         else:
             start = draw(st.integers(0, len(items) - k))
